@@ -153,7 +153,7 @@ def r1_one_scope_function(ctx):
   for fq, b in builders.items():
     for outs, ins, want in rows:
       op = Obj('x:OperatorT', {'outputs': list(outs), 'inputs': list(ins)})
-      args = ([Obj('x:self', {})] if b.cls is not None else []) + [op, tensors]
+      args = ([Obj(b.cls.fq, {})] if b.cls is not None else []) + [op, tensors]
       o = it.outcomes(b, args)
       ok = len(o) == 1 and o[0].kind == 'return' and o[0].value == want
       ctx.check(R, ok, b.node, b, f'{b.name}: outputs {outs}, inputs {ins} -> {[x.short() for x in o]}',
